@@ -199,6 +199,16 @@ pub fn replay(args: &Args, s: &mut Summary) {
                 text.push_str(t);
                 text.push_str(if rng.chance(1, 4) { "\r\n" } else { "\n" });
             }
+            if prop == "C07" {
+                let d = guarded("c07", || crate::framing::c07_diffs(text.as_bytes()));
+                s.checks += 8;
+                match d {
+                    Err(p) => s.mismatch("panic", json!({"text": text, "panic": p})),
+                    Ok(d) if !d.is_empty() => s.mismatch(&format!("c07:{}", d[0].split('.').next().unwrap_or("")), json!({"text": text, "diffs": d})),
+                    Ok(_) => {}
+                }
+                continue;
+            }
             let label = format!("timing replay {text:?}");
             let r = guarded(&label, || {
                 let tp = rosu_map::from_str::<TimingPoints>(&text).map(|t| proj_cp(&t.control_points, &tm));
